@@ -6,7 +6,7 @@ from typing import Any, Dict, List, Optional, Set, Tuple
 
 from .. import linexpr as lx
 from ..ccfg import build_c_cfg, loop_heads
-from ..cfacts import CUnit, alias_binding, dispatcher_of, call_args, callee, int_value, is_assign, local_defs, strip, walk, wrapping_cursors
+from ..cfacts import CUnit, alias_binding, for_iteration_space, dispatcher_of, call_args, callee, int_value, is_assign, local_defs, strip, walk, wrapping_cursors
 from ..core import AnalysisError, Report
 from ..linexpr import Env, c_ir, to_lin
 from ..pycfg import Graph, Node, must_dataflow, path_to
@@ -558,10 +558,20 @@ def rule_copyin(rep: Report, cu: CUnit) -> None:
             init = [c for c in n['inner'] if isinstance(c, dict) and c.get('kind')]
             if init:
                 defs.setdefault(n['name'], []).append(c_ir(init[-1], cu.src_of))
+    # a loop that walks the segment table by pointer names the element `p->f`; it reads as `m.segments[seg].f`
+    walkers: Dict[str, str] = {}
+    for lp in [x for x in walk(body) if x.get('kind') == 'ForStmt']:
+        sp = for_iteration_space(cu, fname, lp)
+        if sp is not None and sp['base'] == 'm.segments':
+            walkers[sp['var']] = 'm.segments[seg]'
+    def el_(name: Optional[str]) -> Optional[str]:
+        if name and '.' in name and name.split('.', 1)[0] in walkers:
+            return walkers[name.split('.', 1)[0]] + '.' + name.split('.', 1)[1]
+        return name
     def mm(name: str) -> Optional[Tuple[str, str, str]]:
         vals = defs.get(name, [])
         r = _minmax(vals[-1]) if vals else None
-        return (r[0], *sorted((w_(r[1]) or '', w_(r[2]) or ''))) if r else None
+        return (r[0], *sorted((el_(w_(r[1])) or '', el_(w_(r[2])) or ''))) if r else None
     rep.check(mm('end_clamped') == ('min', 'low_max_end', 'm.segments[seg].end'), 'C07.COPYIN', 'zero-fill clamp',
               f'end_clamped = {mm("end_clamped")}', cu.site(cu.func(fname)), expected='min(segment end, window end)')
     rep.check(mm('lo') == ('max', 'm.segments[seg].start', 'page_start'), 'C07.COPYIN', 'copy lo',
@@ -617,16 +627,11 @@ def rule_copyin(rep: Report, cu: CUnit) -> None:
             if lp.get('kind') != 'ForStmt':
                 got.append(lp.get('kind'))
                 continue
-            init, _cv, cond, inc, lbody = (lp['inner'] + [None] * 5)[:5]
-            var = None
-            if isinstance(init, dict) and is_assign(init) and int_value(strip(init['inner'][1])) == 0:
-                var = cu.src_of(init['inner'][0])
-            ci = c_ir(cond, cu.src_of) if isinstance(cond, dict) and cond.get('kind') else None
-            ok_shape = (var is not None and ci is not None and ci[0] == 'cmp' and list(ci[1]) == ['<']
-                        and lx.show(ci[2][0]) == var
-                        and isinstance(inc, dict) and inc.get('kind') == 'UnaryOperator' and inc.get('opcode') == '++'
-                        and cu.src_of(inc['inner'][0]) == var)
-            bound_txt = lx.show(ci[2][1]) if ok_shape else f'?{cu.src_of(lp)[:50]}'
+            lbody = (lp['inner'] + [None] * 5)[4]
+            sp = for_iteration_space(cu, fname, lp)
+            var = sp['var'] if sp is not None else None
+            ok_shape = sp is not None and (sp['base'] is None or (sp['base'] == 'm.segments' and kind != 'fill'))
+            bound_txt = sp['bound'] if ok_shape else f'?{cu.src_of(lp)[:50]}'
             if kind == 'fill':
                 bound_txt = fl['bind'].get(bound_txt, bound_txt)          # a helper's parameter reads as the argument passed
                 bound_txt = w_(bound_txt) or bound_txt
